@@ -4,7 +4,7 @@ CHECK = dict(
     property='C15', level='exploration',
     families=[('undo', 1.0)],
     budget=dict(quick=50, thorough=900), max_runs=dict(quick=200_000, thorough=5_000_000),
-    rule=('forks found while indexed blocks are still unflushed; the server must not stop on an exception of its own over a fork within the limit (clause server.died); each evaluation = one simulated run: reorg limit L in {1,2,3,5,8,>chain}; daemon-height '
+    rule=('a fork after a restart whose abandoned blocks are downloaded again while the disk is full for one block-file write (the reorganisation stops half-way and is taken up again); forks found while indexed blocks are still unflushed; the server must not stop on an exception of its own over a fork within the limit (clause server.died); each evaluation = one simulated run: reorg limit L in {1,2,3,5,8,>chain}; daemon-height '
           'trajectory during the initial sync (far ahead / growing / caught block by block); clean stops and '
           'crashes at random points, each followed by a check right after the databases were opened (no undo '
           'row below stored height-L+1, and no row inside [h-L+1,h] that existed before the stop is lost - also when '
